@@ -3,7 +3,31 @@
    history over the slice-level operation type `l2op` (Heap.v); running the compiled
    history on a separated slice-level state and abstracting gives exactly the pool the
    L1 run computes.  Hence the separation / non-interference results of Proof_C02.v hold
-   for L1 histories. *)
+   for L1 histories.
+
+   compile, by constructor (an operation whose L1 call fails compiles to []):
+     Head                        L2Head i (clamp_count f n)
+     Tail                        L2Tail i (clamp_count f n)        (ragged frame: L2DerivePool)
+     SortValues                  L2Sort i (pick . perm)            (ragged frame: L2DeriveFresh)
+     RowSlice Filter Shift
+     DropDuplicates              L2DeriveFresh i g,  g a function of the same column
+     Loc Iloc MultiSelect joins
+     Add Apply Describe Resample
+     grouped aggregates FromCSV
+     CSV round trip              L2DerivePool (fun _ => erase <the L1 result>)
+     observations (7)            []
+     FillNa DropRow              L2FillNa, L2DropRow
+     AppendRow                   L2AppendRow, when every key of the row is a column
+     SetCell                     L2SetCell                         (keys of the frame sorted)
+     Astype AddDatetimeIndex     L2ReplaceCol i cn g               (keys of the frame sorted)
+     DropNa, in-place
+     DropDuplicates              one L2ReplaceCol i k g per column (keys of the frame sorted)
+     Rename AddColumn DropColumn,
+     AppendRow with a new key    NOT COVERED when the call succeeds (Heap.v has no operation
+                                 that changes the column set of a live frame)
+   Main results: compile_sound, C02_step_refines, C02_histories_refine,
+   C02_l1_no_interference(_born), C02_l1_run, compiles_spec, coverage_wf,
+   coverage_histories_wf. *)
 From GF Require Import Ops Lemmas Heap Step Proof_C02 Proof_C01.
 From Coq Require Import Lia Permutation.
 Local Open Scope nat_scope.
@@ -818,3 +842,126 @@ Proof.
   now rewrite (wf_rect f (wf_pool_nth p i f Hp Hf)).
 Qed.
 
+(* ====================================================================== *)
+(* 6. the hypotheses are met: a concrete history                            *)
+(* ====================================================================== *)
+Definition O0 : oracles := {| o_pf := []; o_fmt := []; o_tparse := [] |}.
+Definition key_c : str := [99%N].
+Definition f0 : frame :=
+  [(key_a, (key_a, [CI KInt 1; CNil; CI KInt 3])); (key_b, (key_b, [CS key_a; CB true; CNil]))].
+(* 21 operations: derivations of both kinds, observations, every covered edit, two failing
+   calls (Rename onto an existing name, AddDatetimeIndex on a non-string column) *)
+Definition os0 : list op :=
+  [OHead 0 2; OAppendRow 1 [(key_a, CI KInt 100)]; OTail 0 1; OFillNa 0 (CI KInt 9);
+   OSetCell 1 key_a 0%Z (CB true); ODropRow 0 0%Z; OShift 1 1%Z; OFilter 0 [true; false];
+   OSort 0 [key_a] None; OJoin JOuter 0 1 key_a; ODropNa 1; OAstype 0 key_a s_string;
+   ODedup 0 false [] []; ODedupInplace 2 [] []; OGroupAgg 0 (GOne key_b) GCount [];
+   ORowSlice 0 0%Z 1%Z; ONrows 0; ORename 0 key_a key_b; ODatetime 0 key_a [];
+   OApply 1 1 None; OMultiSelect 0 [key_b]].
+
+(* C02_step_refines: its hypotheses hold of a concrete state and operation, and both sides
+   of its conclusion are the same concrete pool *)
+Example ex_step_refines :
+  let st := load grow_double [f0] in
+  sepb st = true /\ erase_pool [f0] = abs_state st /\
+  exists ops, compile O0 [f0] (OTail 0 2) = Some ops /\ length ops = 1 /\
+    abs_state (fold_left (l2_step grow_double) ops st)
+    = [[(key_a, [CI KInt 1; CNil; CI KInt 3]); (key_b, [CS key_a; CB true; CNil])];
+       [(key_a, [CNil; CI KInt 3]); (key_b, [CB true; CNil])]] /\
+    erase_pool (snd (step O0 [f0] (OTail 0 2)))
+    = abs_state (fold_left (l2_step grow_double) ops st).
+Proof.
+  cbv zeta. split; [vm_compute; reflexivity|]. split; [vm_compute; reflexivity|].
+  eexists. split; [vm_compute; reflexivity|].
+  split; [vm_compute; reflexivity|]. split; vm_compute; reflexivity.
+Qed.
+
+(* C02_histories_refine / C02_l1_run: the history compiles (to 20 slice-level operations),
+   the pool is well formed, and - computed, not deduced - the slice-level run is separated
+   at the end and shows the 12 frames of the L1 run *)
+Example ex_history_hyps :
+  wf_pool [f0] = true /\ run_ok O0 [f0] os0 = true /\ compiles_all O0 [f0] os0 = true /\
+  uncovered_any O0 [f0] os0 = false.
+Proof. vm_compute. repeat split. Qed.
+Lemma opt_map_some {A B} (g : A -> B) o v : option_map g o = Some v -> exists a, o = Some a /\ g a = v.
+Proof. destruct o as [a|]; cbn; [intros [= <-]; eauto|discriminate]. Qed.
+Lemma pair_eq {A B} (a a' : A) (b b' : B) : (a, b) = (a', b') -> a = a' /\ b = b'.
+Proof. intros [= -> ->]. auto. Qed.
+Example ex_history_run :
+  exists l2, compile_all O0 [f0] os0 = Some l2 /\ length l2 = 20 /\
+    sepb (fold_left (l2_step grow_double) l2 (load grow_double [f0])) = true /\
+    abs_state (fold_left (l2_step grow_double) l2 (load grow_double [f0])) = erase_pool (run O0 [f0] os0) /\
+    length (run O0 [f0] os0) = 12 /\
+    nth_opt (erase_pool (run O0 [f0] os0)) 1 = Some [(key_a, [CB true]); (key_b, [CS key_a])].
+Proof.
+  assert (H : option_map (fun l2 => (length l2,
+                sepb (fold_left (l2_step grow_double) l2 (load grow_double [f0])),
+                abs_state (fold_left (l2_step grow_double) l2 (load grow_double [f0]))))
+              (compile_all O0 [f0] os0)
+              = Some (20, true, erase_pool (run O0 [f0] os0))) by (vm_compute; reflexivity).
+  apply opt_map_some in H as (l2 & E & H). apply pair_eq in H as (H & H3). apply pair_eq in H as (H1 & H2).
+  exists l2. split; [exact E|]. split; [exact H1|].
+  split; [exact H2|]. split; [exact H3|]. split; vm_compute; reflexivity.
+Qed.
+Example ex_history_by_theorem :
+  exists l2, compile_all O0 [f0] os0 = Some l2 /\
+    Sep (fold_left (l2_step grow_double) l2 (load grow_double [f0])) /\
+    abs_state (fold_left (l2_step grow_double) l2 (load grow_double [f0])) = erase_pool (run O0 [f0] os0).
+Proof.
+  destruct (proj1 (compiles_all_spec O0 os0 [f0])) as (l2 & H); [vm_compute; reflexivity|].
+  exists l2. split; [exact H|].
+  destruct (C02_l1_run grow_double grow_double_ge O0 [f0] os0 l2 H) as (A & B). now split.
+Qed.
+
+(* C02_l1_no_interference_born: frame 1 is the Head of frame 0; the operations after the
+   first that do not name frame 1 as their target (all but AppendRow 1, SetCell 1, DropNa 1)
+   include FillNa, DropRow, Astype on its SOURCE, frame 0, and derivations FROM frame 1.  Drop the
+   three edits of frame 1: the slice-level run leaves the Head showing what it showed at birth *)
+Definition os0_rest : list op := filter (fun o => match op_target o with Some 1 => false | _ => true end) (skipn 1 os0).
+Example ex_no_interference :
+  exists la lb, compile_all O0 [f0] (firstn 1 os0) = Some la /\
+    compile_all O0 (run O0 [f0] (firstn 1 os0)) os0_rest = Some lb /\ length lb = 15 /\
+    nth_opt (abs_state (fold_left (l2_step grow_double) (la ++ lb) (load grow_double [f0]))) 1
+    = Some [(key_a, [CI KInt 1; CNil]); (key_b, [CS key_a; CB true])].
+Proof.
+  destruct (proj1 (compiles_all_spec O0 (firstn 1 os0) [f0])) as (la & Ha); [vm_compute; reflexivity|].
+  destruct (proj1 (compiles_all_spec O0 os0_rest (run O0 [f0] (firstn 1 os0)))) as (lb & Hb);
+    [vm_compute; reflexivity|].
+  exists la, lb. split; [exact Ha|]. split; [exact Hb|]. split.
+  - assert (L : option_map (@length l2op) (compile_all O0 (run O0 [f0] (firstn 1 os0)) os0_rest) = Some 15)
+      by (vm_compute; reflexivity).
+    apply opt_map_some in L as (l & E & L). rewrite Hb in E. now injection E as ->.
+  - destruct (load_ok grow_double grow_double_ge [f0]) as (S & R).
+    refine (proj1 (C02_l1_no_interference_born grow_double grow_double_ge O0 (firstn 1 os0) os0_rest
+              [f0] la lb _ 1 (rekey_cols (firstn 2) f0) S R Ha Hb _ _)).
+    + vm_compute. reflexivity.
+    + unfold os0_rest. apply Forall_forall. intros o Ho. apply filter_In in Ho as (_ & Ho).
+      intros E. rewrite E in Ho. discriminate.
+Qed.
+
+(* the uncovered part, concretely: AppendRow with a key that is not a column *)
+Example ex_uncovered :
+  compiles O0 [f0] (OAppendRow 0 [(key_c, CNil)]) = false /\
+  compiles O0 [f0] (ORename 0 key_a key_c) = false /\
+  compiles O0 [f0] (OAddColumn 0 key_c [CNil; CNil; CNil]) = false /\
+  compiles O0 [f0] (ODropColumn 0 key_a) = false /\
+  compiles O0 [f0] (ORename 0 key_a key_b) = true /\
+  compiles O0 [f0] (ODropColumn 0 key_c) = true.
+Proof. vm_compute. repeat split. Qed.
+
+(* ====================================================================== *)
+Print Assumptions compile_sound.
+Print Assumptions C02_step_refines.
+Print Assumptions C02_histories_refine.
+Print Assumptions C02_l1_frames_agree.
+Print Assumptions C02_l1_no_interference.
+Print Assumptions C02_l1_no_interference_born.
+Print Assumptions C02_l1_run.
+Print Assumptions load_ok.
+Print Assumptions compiles_spec.
+Print Assumptions compiles_all_spec.
+Print Assumptions compiles_deriving.
+Print Assumptions coverage_wf.
+Print Assumptions coverage_histories_wf.
+Print Assumptions ex_history_run.
+Print Assumptions ex_no_interference.
